@@ -12,7 +12,7 @@
 (*   R3  next holders sum the sub-shares; the new column is the sum of the d_i *)
 (* The parameters are exactly what the implementation's messages reveal, so    *)
 (* the trace specification binds every one of them.                            *)
-EXTENDS LinAlgQ, Policy
+EXTENDS MSPQ, Policy
 
 \* the span test "e0 is in the row space of the rows owned by S" is a parameter: SpansByRank (definition via
 \* ranks, used by the model checker) or a certificate check (trace validation; see KeyLifecycleTrace)
@@ -24,15 +24,6 @@ vars == <<ep, prevEp, pend, x0>>
 NoEpoch == [live |-> FALSE]
 NoPend == [stage |-> 0]
 
-RECURSIVE SortedSeq(_)
-SortedSeq(S) == IF S = {} THEN <<>>
-                ELSE LET m == CHOOSE m \in S : \A y \in S : m <= y IN <<m>> \o SortedSeq(S \ {m})
-Holders(lab) == {lab[k] : k \in 1..Len(lab)}
-RowsOfSet(lab, S) == SortedSeq({k \in 1..Len(lab) : lab[k] \in S})
-RowsOf(lab, h) == RowsOfSet(lab, {h})
-ShareOf(M, lab, r, h) == LET rs == RowsOf(lab, h) IN [k \in 1..Len(rs) |-> Dot(M[rs[k]], r)]
-SharesOf(M, lab, r) == [h \in Holders(lab) |-> ShareOf(M, lab, r, h)]
-E0(n) == Unit(n, 1)
 SpansByRank(M, lab, S) == LET rs == RowsOfSet(lab, S) IN Len(rs) > 0 /\ SolvableLeft(SubRows(M, rs), E0(NCols(M)))
 Spans(M, lab, S) == SpansOp(M, lab, S)
 \* the span programme accepts exactly the qualified sets; for an unqualified set e0 is outside the
@@ -42,10 +33,6 @@ MSPRealises(M, lab, pol) ==
   /\ Holders(lab) = PolicyHolders(pol)
   /\ \A S \in SUBSET Holders(lab) : S # {} => (Spans(M, lab, S) <=> Qualified(pol, S))
 
-VecAdd(u, v) == [k \in 1..Len(u) |-> Add(u[k], v[k])]
-RECURSIVE VecSum(_, _, _)      \* sum of f[i] over the set I of vectors of length n
-VecSum(f, I, n) == IF I = {} THEN [k \in 1..n |-> 0]
-                   ELSE LET i == CHOOSE i \in I : TRUE IN VecAdd(f[i], VecSum(f, I \ {i}, n))
 \* coefficients c (holder -> one coefficient per own row) reconstruct over S: sum_i c_i . M_i = e0
 CoeffOK(M, lab, S, c) ==
   /\ \A i \in S : Len(c[i]) = Len(RowsOf(lab, i))
@@ -59,6 +46,15 @@ Deal(pol, M, lab, r) ==
   /\ IsVec(r, NCols(M))                    \* MSPRealises(M, lab, pol) is asserted by the callers (once per structure)
   /\ ep' = [live |-> TRUE, pol |-> pol, M |-> M, lab |-> lab, r |-> r, sh |-> SharesOf(M, lab, r)]
   /\ x0' = r[1]
+  /\ UNCHANGED <<prevEp, pend>>
+
+\* distributed key generation (Gennaro, Canetti): every holder i deals a column c[i]; the key column is the sum
+DKG(pol, M, lab, c) ==
+  /\ ~ep.live /\ pend.stage = 0
+  /\ \A i \in Holders(lab) : IsVec(c[i], NCols(M))
+  /\ LET r == VecSum(c, Holders(lab), NCols(M)) IN
+       /\ ep' = [live |-> TRUE, pol |-> pol, M |-> M, lab |-> lab, r |-> r, sh |-> SharesOf(M, lab, r)]
+       /\ x0' = r[1]
   /\ UNCHANGED <<prevEp, pend>>
 
 RedistR1(S, MU, labU, z) ==
@@ -89,6 +85,11 @@ RedistR3 ==
 
 Abort == pend.stage > 0 /\ pend' = NoPend /\ UNCHANGED <<ep, prevEp, x0>>
 
+\* ---------------- threshold Schnorr signing (Lindell22, response s = k + e x) ----------------
+\* additive key share of i over the quorum Qm, blinded by the additive form of its summed zero share
+AdditiveKeyShare(Qm, cS, cU, MU, labU, z, i) ==
+  Add(Dot(cS[i], ep.sh[i]),
+      Dot(cU[i], VecSum([j \in Qm |-> ShareOf(MU, labU, z[j], i)], Qm, Len(RowsOf(labU, i)))))
 \* ---------------- properties ----------------
 PkConstant == ep.live => ep.r[1] = x0
 SharesVerify == ep.live => \A h \in Holders(ep.lab) : ep.sh[h] = ShareOf(ep.M, ep.lab, ep.r, h)
